@@ -4,12 +4,16 @@
 // compiles it stand-alone (-DVF_CFG_STANDALONE) with g++ and clang++, -O0 and -O2, -std=c++11/14/17/20, and runs every
 // build on the dumped programs with a given storage fill pattern.
 #include <eventpp/eventqueue.h>
+#include <eventpp/hetereventqueue.h>
+#include <eventpp/utilities/scopedremover.h>
+#include <eventpp/utilities/counterremover.h>
 
 #include "common/program.h"
 
 #include <algorithm>
 #include <cstdio>
 #include <cstring>
+#include <unistd.h>
 #include <chrono>
 #include <list>
 #include <map>
@@ -103,6 +107,214 @@ struct AAuto { };
 struct AInc { typedef eventpp::ArgumentPassingIncludeEvent ArgumentPassingMode; };
 struct AExc { typedef eventpp::ArgumentPassingExcludeEvent ArgumentPassingMode; };
 template <typename T, typename M, typename C, typename A> struct Pol : T, M, C, A { };
+
+
+// ---- object sweep: "no result depends on what the object's memory held before construction", for every class of the library
+// and every threading policy, not only for the queue the generated programs drive. Each object is constructed (default, from
+// its target, by copy, by move) with placement new over storage pre-filled with the pattern, used once, and must behave as
+// the same object built over zeroed storage would. A SpinLock that is found taken in this single-threaded code can never be
+// released: the hook inside its spin loop turns the endless spin into an exception after a bounded number of rounds.
+struct SpinStuck { };
+inline long & spinRounds() { static long n = 0; return n; }
+inline const char * & spinWhere() { static const char * w = ""; return w; }
+inline int & spinFill() { static int f = 0; return f; }
+// what to do with an endless spin: it cannot be unwound in general (the lock may be taken inside a noexcept member), so the
+// stand-alone runner prints its MISMATCH line and leaves, the generating build writes the failing case and leaves
+inline void (* & spinFatal())(const std::string &) { static void (*f)(const std::string &) = 0; return f; }
+inline void spinWatch(const char * tag)
+{
+	if(tag[0] == 's' && tag[1] == 'p' && tag[2] == 'i' && tag[3] == 'n') {
+		if(++spinRounds() > 20000) {
+			spinRounds() = 0;
+			std::string msg = std::string("object sweep [") + spinWhere() + "] fill " + num(spinFill())
+				+ ": a SpinLock inside an object constructed over pre-filled storage is found taken although nothing ever locked it (endless spin in single-threaded code)";
+			if(spinFatal()) spinFatal()(msg);
+			throw SpinStuck();
+		}
+	}
+}
+struct SpinWatchScope
+{
+#ifdef EVENTPP_VERIF
+	eventpp::verif::PointFunction old;
+	SpinWatchScope() : old(eventpp::verif::pointFunction()) { spinRounds() = 0; eventpp::verif::pointFunction() = &spinWatch; }
+	~SpinWatchScope() { eventpp::verif::pointFunction() = old; }
+#endif
+};
+
+template <typename T>
+struct Dirty
+{
+	typename std::aligned_storage<sizeof(T), alignof(T)>::type buf;
+	T * p;
+	explicit Dirty(unsigned char pattern) : p(0) { memset(&buf, pattern, sizeof(T)); }
+	~Dirty() { if(p) p->~T(); }
+private:
+	Dirty(const Dirty &); Dirty & operator = (const Dirty &);
+};
+
+struct SweepCount { int * n; void operator() (int v) const { *n += v; } void operator() () const { *n += 1000; } };
+
+template <typename TP>
+struct SweepPol { typedef typename TP::Threading Threading; };
+
+template <typename TP>
+std::string sweepOne(unsigned char pat)
+{
+	typedef SweepPol<TP> P;
+	typedef eventpp::CallbackList<void (int), P> CL;
+	typedef eventpp::EventDispatcher<int, void (int), P> ED;
+	typedef eventpp::EventQueue<int, void (int), P> EQ;
+	typedef eventpp::HeterCallbackList<eventpp::HeterTuple<void (), void (int)>, P> HCL;
+	typedef eventpp::HeterEventDispatcher<int, eventpp::HeterTuple<void (), void (int)>, P> HED;
+	typedef eventpp::HeterEventQueue<int, eventpp::HeterTuple<void (), void (int)>, P> HEQ;
+	std::string t;
+	int n = 0;
+	SweepCount cb = { &n };
+	{ // the lock itself
+		Dirty<typename TP::Threading::Mutex> m(pat); m.p = new (&m.buf) typename TP::Threading::Mutex();
+		m.p->lock(); m.p->unlock(); m.p->lock(); m.p->unlock(); t += "mutex ";
+	}
+	{ // CallbackList: default, copy, move
+		Dirty<CL> a(pat); a.p = new (&a.buf) CL();
+		t += a.p->empty() ? "cl.empty=1 " : "cl.empty=0 ";
+		typename CL::Handle h = a.p->append(cb); a.p->prepend(cb);
+		n = 0; (*a.p)(3); t += "cl.call=" + num(n) + " ";
+		Dirty<CL> b(pat); b.p = new (&b.buf) CL(static_cast<const CL &>(*a.p));
+		n = 0; (*b.p)(5); t += "cl.copy.call=" + num(n) + " ";
+		t += b.p->ownsHandle(h) ? "cl.copy.owns=1 " : "cl.copy.owns=0 ";
+		Dirty<CL> c(pat); c.p = new (&c.buf) CL(std::move(*a.p));
+		n = 0; (*c.p)(7); (*a.p)(100); t += "cl.move.call=" + num(n) + " ";
+		t += c.p->remove(h) ? "cl.move.rm=1 " : "cl.move.rm=0 ";
+		// a callback added to the new object during an invocation of it must not run in that invocation
+		struct Adder { CL * l; SweepCount cb; void operator() (int) const { l->append(cb); } } adder = { c.p, cb };
+		c.p->prepend(adder);
+		n = 0; (*c.p)(1); t += "cl.move.nested=" + num(n) + " ";
+		// ScopedRemover over dirty storage: default + set, from its target, by move
+		{
+			Dirty<eventpp::ScopedRemover<CL> > r1(pat); r1.p = new (&r1.buf) eventpp::ScopedRemover<CL>();
+			r1.p->setCallbackList(*b.p); r1.p->append(cb); r1.p->prepend(cb);
+			n = 0; (*b.p)(1); t += "sr.cl.set=" + num(n) + " ";
+			Dirty<eventpp::ScopedRemover<CL> > r2(pat); r2.p = new (&r2.buf) eventpp::ScopedRemover<CL>(std::move(*r1.p));
+			r2.p->append(cb);
+			n = 0; (*b.p)(1); t += "sr.cl.moved=" + num(n) + " ";
+			Dirty<eventpp::ScopedRemover<CL> > r3(pat); r3.p = new (&r3.buf) eventpp::ScopedRemover<CL>(*b.p);
+			typename CL::Handle h3 = r3.p->append(cb);
+			t += r3.p->remove(h3) ? "sr.cl.rm=1 " : "sr.cl.rm=0 ";
+			r2.p->reset();
+			n = 0; (*b.p)(1); t += "sr.cl.reset=" + num(n) + " ";
+		}
+	}
+	{ // EventDispatcher
+		Dirty<ED> a(pat); a.p = new (&a.buf) ED();
+		t += a.p->hasAnyListener(2) ? "ed.any=1 " : "ed.any=0 ";
+		a.p->appendListener(2, cb); a.p->appendListener(9, cb);
+		Dirty<ED> b(pat); b.p = new (&b.buf) ED(static_cast<const ED &>(*a.p));
+		Dirty<ED> c(pat); c.p = new (&c.buf) ED(std::move(*a.p));
+		n = 0; b.p->dispatch(2, 4); c.p->dispatch(9, 10); t += "ed.call=" + num(n) + " ";
+		{
+			Dirty<eventpp::ScopedRemover<ED> > r1(pat); r1.p = new (&r1.buf) eventpp::ScopedRemover<ED>();
+			r1.p->setDispatcher(*b.p); r1.p->appendListener(2, cb); r1.p->prependListener(3, cb);
+			Dirty<eventpp::ScopedRemover<ED> > r2(pat); r2.p = new (&r2.buf) eventpp::ScopedRemover<ED>(std::move(*r1.p));
+			typename ED::Handle h2 = r2.p->appendListener(3, cb);
+			n = 0; b.p->dispatch(2, 1); b.p->dispatch(3, 10); t += "sr.ed.moved=" + num(n) + " ";
+			t += r2.p->removeListener(3, h2) ? "sr.ed.rm=1 " : "sr.ed.rm=0 ";
+			Dirty<eventpp::ScopedRemover<ED> > r3(pat); r3.p = new (&r3.buf) eventpp::ScopedRemover<ED>(*b.p);
+			r3.p->appendListener(3, cb);
+			r3.p->swap(*r2.p);
+			r3.p->reset();
+			n = 0; b.p->dispatch(2, 1); b.p->dispatch(3, 10); t += "sr.ed.reset=" + num(n) + " ";
+		}
+		{
+			eventpp::CounterRemover<ED> cr(*c.p);
+			cr.appendListener(9, cb, 2);
+			n = 0; c.p->dispatch(9, 1); c.p->dispatch(9, 1); c.p->dispatch(9, 1); t += "cr.ed=" + num(n) + " ";
+		}
+	}
+	{ // EventQueue: default construction (the programs cover copies and moves)
+		Dirty<EQ> a(pat); a.p = new (&a.buf) EQ();
+		t += a.p->emptyQueue() ? "eq.empty=1 " : "eq.empty=0 ";
+		a.p->appendListener(1, cb); a.p->enqueue(1, 6);
+		t += a.p->emptyQueue() ? "eq.empty=1 " : "eq.empty=0 ";
+		{ typename EQ::DisableQueueNotify d(a.p); }
+		n = 0; a.p->process(); t += "eq.call=" + num(n) + " ";
+		t += a.p->emptyQueue() ? "eq.empty=1 " : "eq.empty=0 ";
+	}
+	{ // heterogeneous classes
+		Dirty<HCL> a(pat); a.p = new (&a.buf) HCL();
+		t += a.p->empty() ? "hcl.empty=1 " : "hcl.empty=0 ";
+		a.p->append(cb); // SweepCount is callable with () -> bound to the first prototype
+		struct OnlyInt { int * n; void operator() (int v) const { *n += v; } } oi = { &n };
+		a.p->append(oi);
+		Dirty<HCL> b(pat); b.p = new (&b.buf) HCL(static_cast<const HCL &>(*a.p));
+		Dirty<HCL> c(pat); c.p = new (&c.buf) HCL(std::move(*a.p));
+		n = 0; (*b.p)(); (*b.p)(5); (*c.p)(7); t += "hcl.call=" + num(n) + " ";
+		{
+			Dirty<eventpp::ScopedRemover<HCL> > r1(pat); r1.p = new (&r1.buf) eventpp::ScopedRemover<HCL>();
+			r1.p->setCallbackList(*b.p); r1.p->append(oi);
+			Dirty<eventpp::ScopedRemover<HCL> > r2(pat); r2.p = new (&r2.buf) eventpp::ScopedRemover<HCL>(std::move(*r1.p));
+			r2.p->append(oi);
+			n = 0; (*b.p)(1); t += "sr.hcl.moved=" + num(n) + " ";
+			r2.p->reset();
+			n = 0; (*b.p)(1); t += "sr.hcl.reset=" + num(n) + " ";
+		}
+		Dirty<HED> d(pat); d.p = new (&d.buf) HED();
+		d.p->appendListener(4, oi);
+		Dirty<HED> e(pat); e.p = new (&e.buf) HED(static_cast<const HED &>(*d.p));
+		n = 0; e.p->dispatch(4, 8); e.p->dispatch(5, 8); t += "hed.call=" + num(n) + " ";
+		{
+			Dirty<eventpp::ScopedRemover<HED> > r1(pat); r1.p = new (&r1.buf) eventpp::ScopedRemover<HED>(*e.p);
+			r1.p->appendListener(4, oi);
+			Dirty<eventpp::ScopedRemover<HED> > r2(pat); r2.p = new (&r2.buf) eventpp::ScopedRemover<HED>(std::move(*r1.p));
+			n = 0; e.p->dispatch(4, 1); t += "sr.hed.moved=" + num(n) + " ";
+			r2.p->reset();
+			n = 0; e.p->dispatch(4, 1); t += "sr.hed.reset=" + num(n) + " ";
+		}
+		Dirty<HEQ> q(pat); q.p = new (&q.buf) HEQ();
+		t += q.p->emptyQueue() ? "heq.empty=1 " : "heq.empty=0 ";
+		q.p->appendListener(4, oi); q.p->enqueue(4, 9); q.p->enqueue(4);
+		Dirty<HEQ> q2(pat); q2.p = new (&q2.buf) HEQ(static_cast<const HEQ &>(*q.p));
+		t += q2.p->emptyQueue() ? "heq.copy.empty=1 " : "heq.copy.empty=0 ";
+		q2.p->enqueue(4, 2);
+		n = 0; q2.p->process(); q.p->processOne(); t += "heq.call=" + num(n) + " ";
+		Dirty<HEQ> q3(pat); q3.p = new (&q3.buf) HEQ(std::move(*q2.p));
+		t += q3.p->emptyQueue() ? "heq.move.empty=1 " : "heq.move.empty=0 ";
+	}
+	return t;
+}
+
+inline const char * sweepExpected()
+{
+	return "mutex cl.empty=1 cl.call=6 cl.copy.call=10 cl.copy.owns=0 cl.move.call=14 cl.move.rm=1 cl.move.nested=1 "
+		"sr.cl.set=4 sr.cl.moved=5 sr.cl.rm=1 sr.cl.reset=2 "
+		"ed.any=0 ed.call=14 sr.ed.moved=22 sr.ed.rm=1 sr.ed.reset=11 cr.ed=5 "
+		"eq.empty=1 eq.empty=0 eq.call=6 eq.empty=1 "
+		"hcl.empty=1 hcl.call=1012 sr.hcl.moved=3 sr.hcl.reset=1 hed.call=8 sr.hed.moved=2 sr.hed.reset=1 "
+		"heq.empty=1 heq.copy.empty=1 heq.call=11 heq.move.empty=1 ";
+}
+
+// every threading policy x the fill pattern; "" = all as expected
+inline std::string checkObjects(int fill, long * executions = 0)
+{
+	static const unsigned char pat[4] = { 0x00, 0xff, 0xaa, 0x5c };
+	SpinWatchScope watch; (void)watch;
+	const char * names[3] = { "MultipleThreading", "SpinLock", "SingleThreading" };
+	for(int i = 0; i < 3; ++i) {
+		std::string got;
+		spinWhere() = names[i]; spinFill() = fill;
+		try {
+			got = i == 0 ? sweepOne<TMulti>(pat[fill & 3]) : i == 1 ? sweepOne<TSpin>(pat[fill & 3]) : sweepOne<TSingle>(pat[fill & 3]);
+		}
+		catch(const SpinStuck &) {
+			return std::string("object sweep [") + names[i] + "] fill " + num(fill) + ": a SpinLock of an object constructed over pre-filled storage is found taken although nothing ever locked it (endless spin)";
+		}
+		if(executions) ++*executions;
+		if(got != sweepExpected()) {
+			return std::string("object sweep [") + names[i] + "] fill " + num(fill) + ": \"" + got + "\" differs from the reference \"" + sweepExpected() + "\"";
+		}
+	}
+	return std::string();
+}
 
 // reference model of one queue
 struct MEvent { int key, value; };
@@ -449,6 +661,14 @@ int main(int argc, char ** argv)
 	if(argc < 3) return 2;
 	int fill = atoi(argv[1]);
 	long n = 0, bad = 0;
+	{
+		struct Fatal { static void fn(const std::string & msg) { printf("MISMATCH objects %s\nPROGRAM-BEGIN\nPROGRAM-END\nRUNNER programs=1 mismatches=1\n", msg.c_str()); fflush(stdout); _exit(1); } };
+		cfg::spinFatal() = &Fatal::fn;
+		long ex = 0;
+		std::string d = cfg::checkObjects(fill, &ex);
+		n += ex;
+		if(! d.empty()) { ++bad; printf("MISMATCH objects %s\n", d.c_str()); printf("PROGRAM-BEGIN\nPROGRAM-END\n"); }
+	}
 	for(int a = 2; a < argc; ++a) {
 		std::ifstream f(argv[a]);
 		std::string line, text;
@@ -519,6 +739,15 @@ Verdict run(const Program & p, const std::string &)
 	const int fill = p.params.empty() ? 0 : p.params[0];
 	bool a1 = false, a2 = false;
 	std::string d = cfg::checkProgram(p, fill, a1, a2);
+	{
+		// once per fill pattern and process: every other class of the library constructed over pre-filled storage
+		static int state[4] = { 0, 0, 0, 0 };
+		static std::string cached[4];
+		struct Fatal { static void fn(const std::string & msg) { dieWithFailure("config.objects", msg, EXIT_DEADLOCK); } };
+		cfg::spinFatal() = &Fatal::fn;
+		if(! state[fill & 3]) { state[fill & 3] = 1; cached[fill & 3] = cfg::checkObjects(fill); v.classes.push_back("object_sweep_all_classes_over_prefilled_storage"); }
+		if(! cached[fill & 3].empty()) { v.fail("config.objects", "C20", cached[fill & 3]); return v; }
+	}
 	if(a1) v.classes.push_back("temporary_key_or_argument");
 	if(a2) v.classes.push_back("object_over_nonzero_storage_queried_before_write");
 	v.nontrivial = a1 || a2;
